@@ -40,7 +40,7 @@ func Manifest() map[string]any {
 			"technique":  p.Technique,
 		})
 	}
-	var na []map[string]any
+	na := []map[string]any{}
 	if f, err := os.Open(filepath.Join(VerifRoot(), "properties.jsonl")); err == nil {
 		sc := bufio.NewScanner(f)
 		sc.Buffer(make([]byte, 1<<20), 16<<20)
